@@ -1,10 +1,15 @@
 mod absarch;
 mod blake;
 mod c01;
+mod c01b;
+mod c02;
+mod c04;
 mod c11;
 mod c12;
 mod c15;
+mod c18;
 mod compare;
+mod hist;
 mod icept;
 mod real;
 mod treespec;
@@ -12,6 +17,7 @@ mod model;
 mod pathgen;
 mod report;
 mod rng;
+mod sweep;
 
 use report::Report;
 
@@ -42,10 +48,27 @@ fn main() {
         "C01" => {
             report = Report::new("C01", "generated source trees (names around '/', multi-byte, sizes around the small-file cap and block size, all modes, pre/post-epoch mtimes, owners) x option triples; each backed up into a fresh archive and restored; non-trivial = more than the root entry; distinct by canonical case text");
             c01::run(&tier, seed, &mut report);
+            c01b::run(&tier, seed, &mut report);
+        }
+        "C02" => {
+            report = Report::new("C02", "generated histories over {replace tree by a mutated one (add/modify/touch/chmod/chown/remove/rename/file<->dir), backup(options), backup interrupted at a random mutating micro-step, resume, delete(subset), gc}; after every step each surviving complete version and 'latest complete' is restored and compared with the snapshot taken when it was made; non-trivial = more than one backup step; distinct by canonical history text");
+            c02::run(&tier, seed, &mut report);
+        }
+        "C04" => {
+            report = Report::new("C04", "scenarios (history prefix + changed tree + small block sizes); for EVERY operation of the fault-free backup trace x {not-found, already-exists, permission-denied, other} one run with that single fault (by OpId), plus random multi-fault runs (p = 1/20, 1/5); non-trivial = at least one operation actually failed; distinct by scenario seed and plan index");
+            c04::run(&tier, seed, &mut report);
         }
         "C15" => {
             report = Report::new("C15", "(pattern set, apath) pairs: 1-3 exclusion patterns built from anchored/unanchored names, *, ?, ** in every position, classes, escapes, non-ASCII names, plus malformed patterns; apaths to depth 4 over a component alphabet; and (single glob, arbitrary string) pairs; non-trivial = the real code answers true; distinct by canonical text of the case");
             c15::run(&tier, seed, &mut report);
+        }
+        "C01B" => {
+            report = Report::new("C01B", "source mtimes (ns) put through the real backup+restore (fixed list around the epoch and the second boundary, plus random times inside the file system's range), hand-made (mtime, mtime_nanos) pairs through IndexEntry::mtime(), and rewritten index pairs through restore; all are non-trivial; distinct by canonical text");
+            c01b::run(&tier, seed, &mut report);
+        }
+        "C18" => {
+            report = Report::new("C18", "generated trees (files, dirs, symlinks, owners, modes, mtimes) backed up by the real code, then mutated by a generated mutation list; one evaluation per (tree, mutation list, include_unchanged) diff, per entry pair (diffmeta) and per second-backup event list; non-trivial = at least one mutation applied; distinct by canonical text of tree+mutations");
+            c18::run(&tier, seed, &mut report);
         }
         "BLAKE" => {
             report = Report::new("BLAKE", "BLAKE2b-512 of the Lean model vs blake2-rfc on lengths 0..=300 and block boundaries");
